@@ -16,6 +16,13 @@ APIS = ("rollout_carry", "rollout_full", "run_jit", "gym_jit")
 def make_plan(seed: int, tier: str, opts: dict) -> dict:
     r = random.Random(seed)
     spec = common.gen_supported_spec(r, max_nodes=opts.get("max_nodes", 4), tie_p=0.3, overrun_bias=0.7)
+    if r.random() < opts.get("fast_sink_p", 0.15):
+        from simrex import spec as _sp2
+
+        s3 = __import__("copy").deepcopy(spec)
+        _sp2.add_fast_sinks(s3, r)
+        if _sp2.in_S(s3) is None:
+            spec = s3
     n_eps = r.choice([1, 2, 2, 3])
     eps = [driver.gen_episode(r, j, open_loop=spec["open_loop"], nsteps=r.randint(3, opts.get("max_steps", 9)), endings=("stop",), override_p=0.0) for j in range(n_eps)]
     pairs = [(m, p) for m in compiled.MODES for p in (True, False)]
